@@ -834,6 +834,66 @@ func ruleMapOrder(c *Ctx) {
 	}
 	sort.Strings(tainted)
 	c.ok("summary", "", "", fmt.Sprintf("%d functions analysed, %d map-order sources, %d sink sites checked, %d functions return map-ordered data (none reaches a data sink unsorted): %s", len(fns), len(e.sources), e.sinks, len(tainted), strings.Join(tainted, " ; ")))
+	// colliding writes: while ranging over a map, writing into another map under a key that is not the range key can hit
+	// the same key twice, and then the last writer (i.e. the iteration order) decides what the table holds
+	for _, fn := range fns {
+		allInstrs(fn, func(in ssa.Instruction) {
+			mu, ok := in.(*ssa.MapUpdate)
+			if !ok {
+				return
+			}
+			// the innermost enclosing loop that is driven by a map iterator
+			var nx *ssa.Next
+			var loop map[*ssa.BasicBlock]bool
+			for _, h := range fn.Blocks {
+				lp := naturalLoop(h)
+				if lp == nil || !lp[mu.Block()] {
+					continue
+				}
+				for _, hi := range h.Instrs {
+					if n, ok := hi.(*ssa.Next); ok && !n.IsString {
+						if loop == nil || len(lp) < len(loop) {
+							nx, loop = n, lp
+						}
+					}
+				}
+			}
+			if nx == nil {
+				return
+			}
+			// a map made afresh in every iteration has no earlier writer
+			if mk, ok := mu.Map.(*ssa.MakeMap); ok && loop[mk.Block()] {
+				return
+			}
+			if rng, ok := nx.Iter.(*ssa.Range); ok && rng.X == mu.Map {
+				return
+			}
+			c.site(1)
+			key := fname(fn) + "|map-write-in-map-range"
+			isRangeKey := false
+			if ex, ok := mu.Key.(*ssa.Extract); ok && ex.Tuple == ssa.Value(nx) && ex.Index == 1 {
+				isRangeKey = true
+			}
+			fromKey := dataDependsOn(mu.Key, func(v ssa.Value) bool {
+				ex, ok := v.(*ssa.Extract)
+				return ok && ex.Tuple == ssa.Value(nx) && ex.Index == 1
+			})
+			fromValue := dataDependsOn(mu.Key, func(v ssa.Value) bool {
+				ex, ok := v.(*ssa.Extract)
+				return ok && ex.Tuple == ssa.Value(nx) && ex.Index == 2
+			})
+			switch {
+			case isRangeKey:
+				c.ok(key, c.pos(mu.Pos()), fname(fn), "written under the range key itself: no two iterations write the same key")
+			case fromKey && !fromValue:
+				c.ok(key, c.pos(mu.Pos()), fname(fn), "written under a key computed from the range key alone (a re-keying of the table; taken to be one-to-one)")
+			case reviewedMapWrites[fname(fn)] != "":
+				c.ok(key, c.pos(mu.Pos()), fname(fn), "reviewed: "+reviewedMapWrites[fname(fn)])
+			default:
+				c.bad(key, c.pos(mu.Pos()), fname(fn), "inside a range over a map, another map is written under a key that is not the range key: when two entries yield the same key the one visited last wins, so the table (and everything looked up in it) differs from run to run")
+			}
+		})
+	}
 	// util.NewSet is a sanitiser: its only loop stores by element into a map
 	if ns := c.fn("util", "NewSet"); ns != nil {
 		ok := true
@@ -1125,6 +1185,33 @@ func ruleIOLayer(c *Ctx) {
 		writes := reach["cmd.getOutput"] || reach["cmd.writeYamlOutput"]
 		c.site(1)
 		c.check(writes, "handler|"+cmd+"|output", c.pos(h.Pos()), fname(h), "output goes through getOutput", "command "+cmd+" produces output without going through getOutput: -o is ignored")
+		// the output file is created (truncated) only after the input has been read: `crd x FILE -o FILE` must see FILE's content
+		region := c.regionCalls(h, func(f *ssa.Function) bool {
+			return f.Name() != "getOutput" && f.Name() != "readFileOrStdinFromArgs" && f.Name() != "readFileOrStdin"
+		})
+		opens := findRegion(region, func(ci ssa.CallInstruction) bool {
+			n := calleeName(ci.Common())
+			return n == "cmd.getOutput" || n == "os.Create"
+		})
+		reads := findRegion(region, func(ci ssa.CallInstruction) bool {
+			return calleeName(ci.Common()) == "cmd.readFileOrStdinFromArgs"
+		})
+		if len(opens) > 0 && len(reads) > 0 {
+			c.site(1)
+			good := true
+			for _, o := range opens {
+				after := false
+				for _, r := range reads {
+					if regionDominates(r.li(), o.li()) {
+						after = true
+					}
+				}
+				if !after {
+					good = false
+				}
+			}
+			c.check(good, "handler|"+cmd+"|read-before-create", c.pos(h.Pos()), fname(h), "the input is read before the output file is created", "command "+cmd+" creates (truncates) the -o file before it has read its input: with the same FILE as input and output the input is destroyed and the result differs from the one printed to stdout")
+		}
 	}
 }
 
@@ -1194,8 +1281,12 @@ func ruleDebugOut(c *Ctx) {
 		for _, ci := range callsTo(fn, "input/ast.SetDebug") {
 			c.site(1)
 			// keyed by the command hook the call is reached from, so that moving the call into a helper keeps the key
-			key := c.entryAlias(fn) + "|SetDebug"
 			lvl, ok := constInt(ci.Common().Args[0])
+			key := c.entryAlias(fn) + "|SetDebug"
+			if ok {
+				// the level is part of the construct: a higher level prints more (reductions of accepted texts too) and is another finding
+				key = fmt.Sprintf("%s|SetDebug(%d)", c.entryAlias(fn), lvl)
+			}
 			switch {
 			case !ok:
 				c.undec(key, c.pos(ci.Pos()), fname(fn), "debug level is not a constant")
@@ -1339,4 +1430,11 @@ func onlyHandedOn(v ssa.Value) bool {
 		}
 	}
 	return true
+}
+
+
+// reviewedMapWrites: functions that write a map under derived keys while ranging over a map, and why the result is order independent.
+var reviewedMapWrites = map[string]string{
+	"util.MustInverseMap": "panics when two entries have the same value, so a table it returns has exactly one writer per key (the tables it is applied to are checked injective by the TAB rules)",
+	"util.InverseMap":     "returns an error when two entries have the same value",
 }
